@@ -4,6 +4,8 @@ From Coq Require Import ZArith Reals List String Lra.
 From FV.C11 Require Import Model Entry Proofs.
 From FV.C11.gen Require Import Kernels.
 Open Scope R_scope.
+(* no sentence of this file may hold the shared Coq build lock for long *)
+Set Default Timeout 240.
 
 Lemma hex_gaussian_affine M t p0 p1 p2 p3 p4 p5 p6 p7 :
   k_element_volumes_hex_gaussian ROps (aff ROps M t p0) (aff ROps M t p1) (aff ROps M t p2)
